@@ -235,3 +235,10 @@ func Range(name string, lo, hi uint64) uint64 {
 	}
 	return v
 }
+
+// OnTick arranges for f to run once after n ticks of any time.Ticker (engine:
+// tickers fire at once, the n-th receive runs f). Natively f runs after a delay
+// that leaves a millisecond ticker loop ample time for n rounds.
+func OnTick(n int, f func()) {
+	time.AfterFunc(time.Duration(n)*20*time.Millisecond, f)
+}
